@@ -114,7 +114,7 @@ fn sample_json(spec: &RunSpec, r: &RunResult, seed: u64) -> serde_json::Value {
         "threads": spec.threads.iter().map(|t| serde_json::json!({
             "crash_on_fault": t.crash_on_fault,
             "ops": t.ops.iter().map(|o| {
-                let q = match &o.call { Call::Array{q}|Call::ArrayInto{q,..} => format!(" q{:?}{:?}={:?}", q.ty, q.shape, q.xs.iter().map(|f| f.0).collect::<Vec<_>>()), Call::Scalar{x,y}|Call::Interp{x,y}|Call::InterpInto{x,y,..}|Call::IndexLeftOf{x,y}|Call::InRange{x,y} => format!(" x={:?} y={:?}", x.0, y.0), Call::IndexPoint{i,j} => format!(" i={i} j={j}"), Call::Cow => String::new(), Call::Sibling{strat,x,y} => format!(" {:?} x={:?} y={:?}", strat, x.0, y.0) };
+                let q = match &o.call { Call::Array{q}|Call::ArrayInto{q,..} => format!(" q{:?}{:?}={:?}", q.ty, q.shape, q.xs.iter().map(|f| f.0).collect::<Vec<_>>()), Call::Scalar{x,y}|Call::Interp{x,y}|Call::InterpInto{x,y,..}|Call::IndexLeftOf{x,y}|Call::InRange{x,y} => format!(" x={:?} y={:?}", x.0, y.0), Call::IndexPoint{i,j} => format!(" i={i} j={j}"), Call::Cow | Call::PrivBuild | Call::PrivSend | Call::PrivReap => String::new(), Call::PrivQuery{inner} => format!(" inner={}", inner.name()), Call::Sibling{strat,x,y} => format!(" {:?} x={:?} y={:?}", strat, x.0, y.0) };
                 let b = match &o.call { Call::InterpInto{buf,..}|Call::ArrayInto{buf,..} => format!(" buf{:?}/{:?}{}", buf.shape, buf.lay, if buf.exact {""} else {" (wrong)"}), _ => String::new() };
                 format!("s{}.{}{}{}{}", o.slot, o.call.name(), q, b, if o.plan.is_empty() { String::new() } else { format!(" plan={:?}", o.plan) })
             }).collect::<Vec<_>>() })).collect::<Vec<_>>(),
@@ -164,7 +164,14 @@ pub fn run_block_c17(verif_seed: u64, block: u64, n_runs: usize, opts: &BlockOpt
         let seed = run_seed(verif_seed, block, run);
         crate::engine::CURRENT_RUN.store(run, std::sync::atomic::Ordering::Relaxed);
         // every 16th run is an exception-safety sweep (element-operation fault at every position of one call)
-        let g = if run % 16 == 5 { crate::gen::gen_elem_sweep(seed) } else { gen_run(seed, Mode::C17) };
+        // ... and every 16th a thread-affinity scenario (private interpolators that migrate between threads)
+        let g = if run % 16 == 5 {
+            crate::gen::gen_elem_sweep(seed)
+        } else if run % 16 == 11 {
+            crate::gen::gen_migration(seed)
+        } else {
+            gen_run(seed, Mode::C17)
+        };
         // every 8th run also checks the in-process pristine instances against brand-new processes
         let ro = RunOpts { fresh_process: run % 8 == 7, ..RunOpts::default() };
         let r = run_spec(&g.spec, Prop::C17, &ro);
@@ -528,6 +535,33 @@ pub fn run_block_c18(verif_seed: u64, block: u64, n_bases: usize, opts: &BlockOp
         }
         false
     };
+    // --- once per block: builder cases over element types other than f64 -----------------------
+    {
+        let (n, viol) = stub::element_type_build_cases();
+        sum.build_cases += n;
+        let mut c = Counters(std::mem::take(&mut sum.counters));
+        c.add("build.element_type_cases", n);
+        sum.counters = c.0;
+        if let Some((label, detail)) = viol {
+            sum.violations.push(RunFile {
+                format: "dst-replay v1".into(),
+                property: "C18".into(),
+                kind: "build-invariant".into(),
+                engine: "baton".into(),
+                verif_seed,
+                block,
+                run: 0,
+                variant: "build:element-types".into(),
+                prefix_runs: 0,
+                flaky: false,
+                spec: None,
+                build_case: None,
+                miri: None,
+                no_nest: false,
+                violation: Violation { property: "C18".into(), kind: "build-invariant".into(), detail: format!("{label}: {detail}"), thread: 0, op: 0, step: 0 },
+            });
+        }
+    }
     'bases: for run in 0..n_bases as u64 {
         let seed = run_seed(verif_seed ^ 0xC18, block, run);
         crate::engine::CURRENT_RUN.store(run, std::sync::atomic::Ordering::Relaxed);
